@@ -7,7 +7,7 @@ sys.dont_write_bytecode = True
 
 CALLS = {'int': 'int_', 'bool': 'bool_', 'float': 'float_', 'bytes': 'bytes_', 'bytearray': 'bytearray_',
          'ord': 'ord_', 'chr': 'chr_', 'str': 'str_', 'repr': 'repr_', 'hex': 'hex_',
-         'isinstance': 'isinstance_', 'type': 'type_', 'min': 'min_', 'max': 'max_', 'sum': 'sum_', 'set': 'set_', 'dict': 'dict_', 'range': 'range_'}
+         'isinstance': 'isinstance_', 'type': 'type_', 'min': 'min_', 'max': 'max_', 'sum': 'sum_', 'set': 'set_', 'dict': 'dict_', 'range': 'range_', 'len': 'len_'}
 METHODS = {'join': 'join', 'get': 'get'}
 SHIM_MODULES = {'struct': 'struct_shim', 'socket': 'socket_shim', 'array': 'array_shim', 'math': 'math_shim'}
 
